@@ -342,7 +342,14 @@ ApiCancel ==
 
 ApiPanic ==
     /\ Is("api_panic") /\ pend' = pend \ {Ev.op}
-    /\ bad' = Flag("C08", "panic inside an API call")
+    /\ LET why == First(<<<<TRUE, "C08", "panic inside an API call">>,
+                          <<TRUE, "C06", "an API call panicked instead of failing with an error">>,
+                          <<TRUE, "C01", "panic inside an API call">>,
+                          <<TRUE, "C03", "panic inside an API call">>,
+                          <<TRUE, "C07", "panic inside an API call">>,
+                          <<TRUE, "C10", "panic inside an API call">>,
+                          <<TRUE, "C11", "panic inside an API call">>>>) IN
+       bad' = IF why = <<>> THEN bad ELSE Flag(why[1], why[2])
     /\ UNCHANGED <<cfg, fly, hdrE, hdrD, pair, st, ops, reqs, poolKey, lastPool, ended, gone, cnt, misc>>
 
 \* ------------------------------------------------------------------ quiescence: liveness verdicts
@@ -390,8 +397,10 @@ Quiescent ==
                           <<live /\ deadsend # {}, "C11", "send still pending although the receiver's close/finish was delivered">>,
                           <<live /\ overstuck # {}, "C11", "send with graceful-close override still pending although the closed receiver keeps receiving">>,
                           <<live /\ connStuck # {}, "C10", "connect still waiting although a local port and a request slot are free">>,
+                          <<live /\ connStuck # {}, "C07", "a connect is still waiting although a port number was released (not reclaimed for the waiter)">>,
                           <<live /\ connDead # {}, "C10", "connect still pending although the remote listener is known to be gone">>,
                           <<live /\ accStuck # {}, "C10", "listener does not accept although a request is queued and a port is free">>,
+                          <<live /\ accStuck # {}, "C07", "a queued request was left behind: neither accepted nor rejected although a port is free">>,
                           <<live /\ ~PairsOK, "C10", "accepted port pair differs from the pairing on the wire">>>>) IN
        /\ bad' = (IF why = <<>> THEN bad ELSE Flag(why[1], why[2]))
        /\ misc' = [misc EXCEPT !.early = @ \/ (settled /\ ~Has("late"))]
